@@ -80,7 +80,7 @@ PROPERTIES = {
         "explanation": "R-RAISE, R-DEFASSIGN, R-REGKEY, R-KWSIG, R-ASSERT, R-CODEWIDTH (sentinel stores cannot overflow a narrow code dtype), R-LOOPSTORE (the planner cannot lose a cohort and trip its own assert)",
     },
     "C02": {
-        "rules": [M.rule_plan, rule_algebra, rule_cover, PR.rule_pairs_dummyaxis, rule_token, PR.rule_codelabels, M.rule_combinebypass, M.rule_nanfinal, CD.rule_indexer, rule_axisorder],
+        "rules": [M.rule_plan, rule_algebra, rule_cover, PR.rule_pairs_dummyaxis, rule_token, PR.rule_codelabels, M.rule_combinebypass, M.rule_nanfinal, CD.rule_indexer, rule_axisorder, M.rule_combinecast],
         "thorough": [selftest, seeded_regression],
         "technique": "CFG must-pass-through (finalizer), resolved embeddings of combine/aggregate callables, access-path agreement",
         "level_text": "Static, all-paths: every plan funnels into the one finalizer on every path, only the two sibling combine algorithms "
@@ -161,7 +161,7 @@ PROPERTIES = {
         "explanation": "R-COLLIDE, R-CASTORDER, R-INFRESOLVE, R-VARSHIFT, R-ACCDTYPE (integer block accumulators are as wide as the final dtype)",
     },
     "C03": {
-        "rules": [rule_keys, rule_order, rule_axiskey, rule_global, rule_algebra, rule_contig, rule_pure, rule_passthrough_sort, rule_wholepart, rule_counter],
+        "rules": [rule_keys, rule_order, rule_axiskey, rule_global, rule_algebra, rule_contig, rule_pure, rule_passthrough_sort, rule_wholepart, rule_counter, M.rule_combinecast],
         "thorough": [selftest, seeded_regression],
         "technique": "def-use closure of graph keys over enclosing loops; taint (unordered source -> block selection) with sanitizers; "
                      "module-state scan; associativity column of the monoid table",
